@@ -68,3 +68,21 @@ pub fn disarm() -> AllocStats {
     ARMED.with(|a| a.set(false));
     AllocStats { max_request: MAX_REQ.with(|m| m.get()), total: TOTAL.with(|t| t.get()), count: COUNT.with(|c| c.get()) }
 }
+
+/// Guard that suspends measuring while the *simulator's own* code runs inside a library call (stub internals: error
+/// values, scratch buffers, event logs); measuring resumes when it is dropped.
+pub struct Paused(bool);
+
+pub fn pause() -> Paused {
+    let was = ARMED.with(|a| a.replace(false));
+    Paused(was)
+}
+
+impl Drop for Paused {
+    fn drop(&mut self) {
+        if self.0 {
+            let _ = ARMED.try_with(|a| a.set(true));
+        }
+    }
+}
+
